@@ -215,7 +215,7 @@ static void dump_mode(int mode, int verify, const uint8_t* img, size_t n, const 
     for (int g = 0; g < nrg; g++) for (int c = 0; c < f->ncols; c++) {
         int N = f->N; uint32_t ncomp = (N > 0 && N <= 6) ? (1u << (N - 1)) : 1; int w = ref_type_width(f->col[c].ptype, f->col[c].tlen);
         for (uint32_t comp = 0; comp < ncomp; comp++) {
-            int parts[64]; int np = N > 0 ? mc_composition(N, N <= 6 ? comp : 0x92492492u, parts) : 0;
+            int parts[64]; int np = N > 0 && N <= 60 ? mc_composition(N, N <= 6 ? comp : 0x92492492u, parts) : 0; if (N > 60) continue;      /* long columns: see the whole-chunk reads below */
             carquet_column_reader_t* cr = carquet_reader_get_column(rd, g, c, &err); if (!cr) { snprintf(t, sizeof t, "|col open failed rg%d c%d code%d|", g, c, err.code); ref_buf_put(d, t, strlen(t)); continue; }
             for (int j = 0; j <= np; j++) {
                 int64_t k = j < np ? parts[j] : 2; size_t vs = f->col[c].ptype == PT_BYTE_ARRAY ? sizeof(carquet_byte_array_t) : (size_t)w;
@@ -228,8 +228,17 @@ static void dump_mode(int mode, int verify, const uint8_t* img, size_t n, const 
             }
             carquet_column_reader_free(cr);
         }
+        if (N > 6) {      /* one read for the whole chunk (spans every page) and a skip past half of it */
+            for (int hist = 0; hist < 2; hist++) { carquet_column_reader_t* cr = carquet_reader_get_column(rd, g, c, &err); if (!cr) continue; size_t vs = f->col[c].ptype == PT_BYTE_ARRAY ? sizeof(carquet_byte_array_t) : (size_t)w;
+                int64_t want = N; if (hist) { int64_t sk = carquet_column_skip(cr, N / 2 + 1); snprintf(t, sizeof t, "|rg%d c%d skip(%d)=%lld|", g, c, N / 2 + 1, (long long)sk); ref_buf_put(d, t, strlen(t)); want = N - (N / 2 + 1); }
+                uint8_t* vb = mc_exact(NULL, vs * (size_t)(want + 1)); int16_t* db = mc_exact(NULL, 2 * (size_t)(want + 1)); memset(vb, 0, vs * (size_t)(want + 1)); int64_t n2 = carquet_column_read_batch(cr, vb, want, db, NULL);
+                snprintf(t, sizeof t, "|rg%d c%d whole read(%lld)=%lld|", g, c, (long long)want, (long long)n2); ref_buf_put(d, t, strlen(t));
+                if (n2 > 0) { int64_t nn = 0; for (int64_t r = 0; r < n2; r++) if (!f->col[c].opt || db[r] == 1) nn++; ref_buf_put(d, db, 2 * (size_t)n2);
+                    if (f->col[c].ptype == PT_BYTE_ARRAY) { carquet_byte_array_t* ba = (carquet_byte_array_t*)vb; for (int64_t q = 0; q < nn; q++) { ref_buf_u32le(d, (uint32_t)ba[q].length); if (ba[q].length > 0 && ba[q].length < 100000) ref_buf_put(d, ba[q].data, (size_t)ba[q].length); } } else ref_buf_put(d, vb, (size_t)nn * (size_t)w); }
+                free(vb); free(db); carquet_column_reader_free(cr); }
+        }
     }
-    for (int64_t bs = 1; bs <= f->N + 1; bs++) { static const int P01[] = { 0, 1 }, P10[] = { 1, 0 }; snprintf(t, sizeof t, "|batches bs%lld|", (long long)bs); ref_buf_put(d, t, strlen(t));
+    for (int64_t bs = 1; bs <= f->N + 1; bs++) { static const int P01[] = { 0, 1 }, P10[] = { 1, 0 }; if (f->N > 60 && !(bs == 7 || bs == f->N / 2 || bs == f->N || bs == f->N + 1)) continue; snprintf(t, sizeof t, "|batches bs%lld|", (long long)bs); ref_buf_put(d, t, strlen(t));
         check_batches(rd, f, cols, bs, NULL, 0, false, fdesc, d);
         if (f->ncols >= 2) { check_batches(rd, f, cols, bs, P10, 2, false, fdesc, d); check_batches(rd, f, cols, bs, P01, 2, true, fdesc, d); } }
     carquet_reader_close(rd);
@@ -337,6 +346,13 @@ static void enumerate(void) {
               set_pages(&f, 0, N, pa); set_pages(&f, 1, N, pb); f.enc[0] = ENC_PLAIN; f.enc[1] = (mx == 1 && cd) ? ENC_RLE_DICT : ENC_PLAIN; f.dict_offset_present = true;
               c03_file(&f, mc_mix(0xc03, ((uint64_t)mx << 56) | ((uint64_t)o1 << 55) | ((uint64_t)N << 48) | ((uint64_t)pa << 32) | ((uint64_t)pb << 8) | ((uint64_t)cd << 4) | (uint64_t)nrg));
           } }
+    mc_stage("c03.many-pages.long-columns");
+    for (int t = 0; t < 8; t++) for (int opt = 0; opt < 2; opt++) for (int cd = 0; cd < 2; cd++) for (int v = 0; v < 2; v++) {
+        memset(&f, 0, sizeof f); f.ncols = 2; f.N = v ? 3000 : 200; f.nrg = 1; f.codec = cd ? CODEC_SNAPPY : CODEC_NONE; f.crc = true; f.pattern = 3; f.dict_offset_present = true;
+        f.col[0].ptype = TYPES[t]; f.col[0].tlen = TYPES[t] == PT_FLBA ? 5 : 0; f.col[0].opt = opt; f.mask[0] = opt ? 0x2d96c3a5a5ull : 0; f.uniform_page[0] = v ? 0 : 2;       /* 100 pages of 2 rows / one page of 3000 rows */
+        f.col[1].ptype = PT_INT32; f.uniform_page[1] = v ? 1000 : 50;
+        c03_file(&f, mc_mix(0xc03e, ((uint64_t)t << 16) | ((uint64_t)opt << 8) | ((uint64_t)cd << 4) | (uint64_t)v));
+    }
     mc_stage("c03.long-page-headers");
     { static uint8_t lb[400]; memset(lb, 'q', sizeof lb); static ref_stats ls[6]; static const int LN[] = { 10, 100, 118, 125, 200, 390 };
       for (int li = 0; li < 6; li++) for (int cd = 0; cd < 2; cd++) for (int enc = 0; enc < 2; enc++) {
